@@ -44,8 +44,8 @@ PROPS = {
                              "a method that omits the lock has no schedule point and runs atomically here (C07 catches that mutation)",
                              "the clock is constant during the concurrent phase, as the property stipulates"]),
     "C07": dict(driver="race", mode="pairwise",
-                quick={"iters": 30, "reps": 3, "programs": 60, "prog_ops": 25},
-                thorough={"iters": 300, "reps": 6, "programs": 2000, "prog_ops": 40},
+                quick={"iters": 30, "reps": 4, "programs": 60, "prog_ops": 25},
+                thorough={"iters": 300, "reps": 8, "programs": 2000, "prog_ops": 40},
                 rule="for every container (thread_safe::yes) every unordered pair {A,B} of public member functions incl. A=B is run on two free threads released together, "
                      "each calling its method `iters` times with generated arguments over a shared small key universe after a generated prefix that fills the container and "
                      "expires part of it (complete matrix; thorough adds 3-4 thread random programs); distinct = (container, A, B, seed); "
